@@ -39,6 +39,7 @@ var subst = map[string][2]string{
 	"math/rand/v2": {base + "vrand2", "rand"},
 	"time":         {base + "vtime", "time"},
 	"context":      {base + "vcontext", "context"},
+	"crypto/rand":  {base + "vcrand", "rand"},
 }
 
 type edit struct {
@@ -298,6 +299,7 @@ func main() {
 	// func(int) ID, func() []ID): an edited tree that grows a batch API is exercised through it too
 	sources, srcNames := "", ""
 	callbacks, cbNames := "", ""
+	controls, ctlNames := "", ""
 	needCtx := false
 	uuAlias := ""
 	for i, p := range pkgs {
@@ -405,6 +407,14 @@ func main() {
 						}
 					}
 				}
+				// a control function: no result (or just an error / a bool) and up to two parameters of
+				// the kinds int, int64, uint64, bool, time.Duration — Reseed(), SetLanes(n),
+				// StartReseeding(every). Callers use them while others generate IDs.
+				if ctl, ok := controlCall(fc, fd); ok {
+					controls += ctl
+					ctlNames += fmt.Sprintf("%q, ", "uu."+fd.Name.Name)
+					continue
+				}
 				res := fd.Type.Results
 				if res == nil || len(res.List) < 1 || len(res.List) > 2 || len(res.List[0].Names) > 1 {
 					continue
@@ -479,6 +489,9 @@ func main() {
 		fullImports += "\tvcontext \"" + base + "vcontext\"\n"
 	}
 	fullImports = "\t\"math/rand\"\n\n" + fullImports
+	if strings.Contains(controls, "time.Duration(") {
+		fullImports = "\t\"time\"\n" + fullImports
+	}
 	if resetOnly {
 		src := fmt.Sprintf("// Code generated by vsim rewrite. DO NOT EDIT.\n\npackage %s\n\nimport (\n%s)\n\n// resetPackages re-initialises the package-level state of the packages under test.\nfunc resetPackages() {\n%s}\n", filepath.Base(filepath.Dir(out)), imports, calls)
 		if err := os.WriteFile(out, []byte(src), 0o644); err != nil {
@@ -520,11 +533,71 @@ var ExtraCallbacks = []func(cb func(*rand.Rand)){
 
 // ExtraCallbackNames names them.
 var ExtraCallbackNames = []string{%s}
-`, fullImports, calls, len(i2off) == 0, usesSync, strings.Join(unsupported, "; "), note, names, sources, srcNames, callbacks, cbNames)
+
+// ExtraControls are exported functions of package uu that return no ID and take small
+// arguments: configuration and maintenance calls (a is a small tape-chosen number).
+var ExtraControls = []func(a int){
+%s}
+
+// ExtraControlNames names them.
+var ExtraControlNames = []string{%s}
+`, fullImports, calls, len(i2off) == 0, usesSync, strings.Join(unsupported, "; "), note, names, sources, srcNames, callbacks, cbNames, controls, ctlNames)
 	if err := os.WriteFile(out, []byte(src), 0o644); err != nil {
 		die(err)
 	}
 	fmt.Println(note)
+}
+
+// controlCall renders the call of a control function, or reports that fd is none.
+func controlCall(fc *fileCtx, fd *ast.FuncDecl) (string, bool) {
+	if rs := fd.Type.Results; rs != nil && len(rs.List) > 0 {
+		if len(rs.List) != 1 || len(rs.List[0].Names) > 1 {
+			return "", false
+		}
+		if id, ok := rs.List[0].Type.(*ast.Ident); !ok || (id.Name != "error" && id.Name != "bool") {
+			return "", false
+		}
+	}
+	var args []string
+	if fd.Type.Params != nil {
+		for _, f := range fd.Type.Params.List {
+			k := len(f.Names)
+			if k == 0 {
+				k = 1
+			}
+			for j := 0; j < k; j++ {
+				switch t := f.Type.(type) {
+				case *ast.Ident:
+					switch t.Name {
+					case "int":
+						args = append(args, "a")
+					case "int64", "uint64", "int32", "uint32", "uint":
+						args = append(args, t.Name+"(a)")
+					case "bool":
+						args = append(args, "a%2 == 1")
+					default:
+						return "", false
+					}
+				case *ast.SelectorExpr:
+					id, ok := t.X.(*ast.Ident)
+					if !ok || t.Sel.Name != "Duration" || fc.imports[id.Name] != "time" {
+						return "", false
+					}
+					args = append(args, "time.Duration(a) * time.Millisecond")
+				default:
+					return "", false
+				}
+			}
+		}
+	}
+	if len(args) > 2 {
+		return "", false
+	}
+	call := fmt.Sprintf("uu.%s(%s)", fd.Name.Name, strings.Join(args, ", "))
+	if fd.Type.Results != nil && len(fd.Type.Results.List) == 1 {
+		call = "_ = " + call
+	}
+	return fmt.Sprintf("\tfunc(a int) { %s },\n", call), true
 }
 
 func die(err error) {
